@@ -180,6 +180,14 @@ def descends : Walk → String → Bool
   | .visitor, name => name ≠ "__typename"
   | .limits, _ => true
 
+/-- the type an inline fragment's fields are keyed by in the overlap rule: its own type condition,
+    or, without one, the enclosing type (src/validation/rules/overlapping_fields_can_be_merged.rs,
+    `.or(on_type)`) -/
+def inlineOn (c on : Option String) : Option String :=
+  match c with
+  | some x => some x
+  | none => on
+
 mutual
 def mwSel (w : Walk) (rec : FragDef → MSt → MSt) (on : Option String) : Sel → MSt → MSt
   | .field al name _ _ sub _, st =>
@@ -192,7 +200,7 @@ def mwSel (w : Walk) (rec : FragDef → MSt → MSt) (on : Option String) : Sel 
     match takeFrag n st.rem with
     | some (f, r) => rec f { st with rem := r }
     | none => st
-  | .inline c _ sub _, st => mwSels w rec c sub st
+  | .inline c _ sub _, st => mwSels w rec (inlineOn c on) sub st
 def mwSels (w : Walk) (rec : FragDef → MSt → MSt) (on : Option String) : List Sel → MSt → MSt
   | [], st => st
   | s :: ss, st => mwSels w rec on ss (mwSel w rec on s { st with sel := st.sel + 1 })
